@@ -48,11 +48,11 @@ GuardOK(n, vt) ==
 TVote ==
   /\ IsEvent("Vote")
   /\ LET vt == VoteOf(Ev) IN
-     /\ vt.v = Ev.from                                  \* a vote is signed with the sender's index
-     /\ \/ Ev.from \in Byz                              \* Byzantine validators vote arbitrarily
-        \/ vt \in sent                                  \* re-broadcast (standstill recovery)
-        \/ GuardOK(Ev.from, vt)
-     /\ sent' = sent \cup {vt}
+     /\ \/ Ev.from \in Byz                              \* Byzantine validators send anything
+        \/ /\ vt.v = Ev.from                            \* a vote is signed with the sender's index
+           /\ (vt \in sent \/ GuardOK(Ev.from, vt))     \* (re-broadcast: standstill recovery)
+     \* votes naming a validator that does not exist or signed with the wrong key are not votes
+     /\ sent' = IF Ev.from \in Byz /\ vt.v # Ev.from THEN sent ELSE sent \cup {vt}
      /\ ts' = vt.s
   /\ UNCHANGED <<blocks, fin, skipped>> /\ Advance
 
@@ -106,8 +106,8 @@ TImplSkipped ==
 
 \* informational events of the harness's Byzantine players
 TInfo ==
-  /\ IsEvent("ByzBlocks")
-  /\ ts' = Ev.s
+  /\ (IsEvent("ByzBlocks") \/ IsEvent("Hostile"))
+  /\ ts' = IF Ev.s <= MaxSlot THEN Ev.s ELSE 0
   /\ UNCHANGED <<sent, blocks, fin, skipped>> /\ Advance
 
 TraceNext == TInfo \/ TBlock \/ TVote \/ TCertSent \/ TCertHeld \/ TFinalized \/ TImplSkipped
